@@ -23,6 +23,9 @@ type spec struct {
 	RuleText string
 	Rule     sim.Rule
 	Liveness bool
+	// EnumEvery > 0: every EnumEvery-th case is followed by a complete
+	// enumeration of single-crash faults over a fresh crash-free base schedule.
+	EnumEvery int
 }
 
 func tier() string {
@@ -63,7 +66,16 @@ func simCheck(t *testing.T, sp spec) {
 	if len(owned) == 0 {
 		owned = []string{sp.Prop}
 	}
+	caseNo := 0
 	rapid.Check(t, func(rt *rapid.T) {
+		caseNo++
+		if sp.EnumEvery > 0 && caseNo%sp.EnumEvery == 0 && !failed {
+			if v := crashEnumeration(rt, sp, owned, col); v != nil {
+				failed = true
+				rt.Fatalf("%s", v.Error())
+			}
+			return
+		}
 		prof := sp.Profiles[0]
 		if len(sp.Profiles) > 1 {
 			prof = sp.Profiles[rapid.IntRange(0, len(sp.Profiles)-1).Draw(rt, "profile")]
@@ -129,8 +141,8 @@ func TestC04(t *testing.T) {
 }
 
 func TestC05(t *testing.T) {
-	simCheck(t, spec{Prop: "C05", Profiles: []string{"crash"}, Owned: []string{"C05", "C01", "C02", "C03", "C04"}, Steps: [2]int{300, 900},
-		RuleText: caseText + "non-trivial = a crash hit a node holding un-persisted promises (queued after-append responses, a Ready between take and send, or a non-empty append queue)",
+	simCheck(t, spec{Prop: "C05", Profiles: []string{"crash"}, Owned: []string{"C05", "C01", "C02", "C03", "C04"}, Steps: [2]int{300, 900}, EnumEvery: 150,
+		RuleText: caseText + "every 150th case is replaced by a fault enumeration: a crash-free base schedule whose Ready sub-steps and storage-thread steps are all separate actions is replayed once per (action boundary, node, crash variant in {plain, partial append, lost un-synced hard state with lowest Applied, both}) with a restart shortly after, then everything restarted and drained - a complete single-crash sweep per base schedule; non-trivial = a crash hit a node holding un-persisted promises (queued after-append responses, a Ready between take and send, or a non-empty append queue)",
 		Rule:     func(c *sim.CaseStats) bool { return has(c, "crash.with_pending_promises") }})
 }
 
@@ -223,4 +235,94 @@ func TestC20(t *testing.T) {
 		Rule: func(c *sim.CaseStats) bool {
 			return has(c, "prop.forward_delivered") || (has(c, "prop.dropped") && has(c, "prop.accepted"))
 		}})
+}
+
+// crashEnumeration draws one crash-free base schedule (profile crashbase:
+// every Ready sub-step / storage-thread step is an action of its own) and then
+// replays it once per (action boundary, node, crash variant): the node crashes
+// at that boundary, restarts a few actions later, the rest of the schedule
+// runs, everything is restarted and the network drained. A complete sweep of
+// single-crash faults over that schedule.
+func crashEnumeration(rt *rapid.T, sp spec, owned []string, col *sim.Collector) *sim.Violation {
+	maxSteps := 60
+	if tier() == "thorough" {
+		maxSteps = 120
+	}
+	rec := &sim.RecordingDrawer{D: sim.RapidDrawer{T: rt}}
+	base := sim.RunCase(rec, sim.CaseConfig{Profile: sim.Profiles["crashbase"], MaxSteps: maxSteps, Owned: owned})
+	if base.Sim == nil || base.Violation != nil {
+		if base.Violation != nil {
+			writeFail(sp, base)
+			return base.Violation
+		}
+		return nil
+	}
+	col.Add(base.Sim, base.Aborted, base.Excluded)
+	col.Extra["enum.bases"] = asInt(col.Extra["enum.bases"]) + 1
+	type variant struct {
+		partial, lose, low bool
+	}
+	variants := []variant{{false, false, false}, {true, false, false}, {false, true, true}, {true, true, false}}
+	n := base.Sim.ActionsRun
+	for k := 0; k <= n; k++ {
+		for _, id := range base.Sim.IDs {
+			for vi, v := range variants {
+				crashed := false
+				restartAt := k + 1 + (vi%2)*4
+				inject := func(s *sim.Sim, i int) {
+					nd := s.Nodes[id]
+					if (i == k || (i == -1 && k == n)) && !crashed && nd.Up {
+						crashed = true
+						s.Crash(nd, v.partial, v.lose)
+					}
+					if crashed && !nd.Up && (i >= restartAt || i == -1) {
+						lo, hi := s.RestartRange(nd)
+						a := hi
+						if v.low {
+							a = lo
+						}
+						s.Restart(nd, a)
+					}
+					if i == -1 {
+						for _, x := range s.IDs {
+							if xn := s.Nodes[x]; !xn.Up {
+								_, hi := s.RestartRange(xn)
+								s.Restart(xn, hi)
+							}
+						}
+						s.Heal()
+						s.Stabilize(10)
+					}
+				}
+				res := sim.RunCase(&sim.ReplayDrawer{Vals: rec.Vals}, sim.CaseConfig{Profile: sim.Profiles["crashbase"], MaxSteps: maxSteps, Owned: owned, Inject: inject})
+				col.Extra["enum.replays"] = asInt(col.Extra["enum.replays"]) + 1
+				if res.Sim != nil {
+					col.Add(res.Sim, res.Aborted, res.Excluded)
+				}
+				if res.Violation != nil {
+					writeFail(sp, res)
+					return res.Violation
+				}
+			}
+		}
+		col.Extra["enum.locations"] = asInt(col.Extra["enum.locations"]) + len(base.Sim.IDs)
+	}
+	col.Extra["enum.note"] = "per base schedule the sweep over (action boundary x node x 4 crash variants) is complete; base schedules are sampled"
+	return nil
+}
+
+func asInt(v any) int {
+	switch x := v.(type) {
+	case int:
+		return x
+	case float64:
+		return int(x)
+	}
+	return 0
+}
+
+func writeFail(sp spec, res sim.CaseResult) {
+	if dir := os.Getenv("VERIF_OUT_DIR"); dir != "" {
+		sim.WriteFailure(dir, fmt.Sprintf("%s-shard%s", sp.Prop, os.Getenv("VERIF_SHARD")), res)
+	}
 }
